@@ -327,3 +327,42 @@ Fixpoint walk (fuel : nat) (h : heap) (a stop : addr) : hres (list (addr * entry
 Definition habs (h : heap) (q : hlru) : hres (list (addr * entry)) :=
   hdo (_, _, _, first) <- hread h (hhead q);
   walk (S (length (hidx q))) h first (htail q).
+
+(** ** the public operations as one step function; histories *)
+Inductive hop :=
+| HPut (k : key) (v : val)
+| HGetMut (k : key) (w : option val)      (* [get] is [HGetMut k None] *)
+| HPeek (k : key)
+| HRemove (k : key)
+| HRemoveLru
+| HPurge
+| HResize (c : nat).
+
+Inductive hout :=
+| OPut (r : put_result)
+| OVal (o : option val)
+| OEnt (o : option entry)
+| OUnit.
+
+Definition hstep (h : heap) (q : hlru) (o : hop) : hres (heap * hlru * hout) :=
+  match o with
+  | HPut k v => hdo (h1, q1, r) <- h_put h q k v; HOk (h1, q1, OPut r)
+  | HGetMut k w => hdo (h1, r) <- h_get_mut h q k w; HOk (h1, q, OVal r)
+  | HPeek k => hdo r <- h_peek h q k; HOk (h, q, OVal r)
+  | HRemove k => hdo (h1, q1, r) <- h_remove h q k; HOk (h1, q1, OVal r)
+  | HRemoveLru => hdo (h1, q1, r) <- h_remove_lru h q; HOk (h1, q1, OEnt r)
+  | HPurge => hdo (h1, q1) <- h_purge h q; HOk (h1, q1, OUnit)
+  | HResize c => hdo (h1, q1) <- h_resize h q c; HOk (h1, q1, OUnit)
+  end.
+
+Fixpoint hrun (h : heap) (q : hlru) (os : list hop) : hres (heap * hlru * list hout) :=
+  match os with
+  | [] => HOk (h, q, [])
+  | o :: rest =>
+    hdo (h1, q1, r) <- hstep h q o;
+    hdo (h2, q2, rs) <- hrun h1 q1 rest;
+    HOk (h2, q2, r :: rs)
+  end.
+
+(** the empty heap *)
+Definition heap0 : heap := mkHeap (fun _ => Free) 0.
